@@ -535,18 +535,35 @@ def assemble(unit_path, repo=REPO):
             if scope:
                 _, ob, cb = rsx.find_block(src.src, src.masked, scope)
                 lo, hi = ob + 1, cb
+            ms = re.search(r'(?<![A-Za-z0-9_])const\s+' + re.escape(name) + r"\s*:\s*&\s*(?:'static\s+)?str\s*=\s*", src.masked[lo:hi])
+            if ms:
+                # a single string constant: emitted as a function returning the literal the code holds
+                lit = re.match(r'\s*("(?:\\.|[^"\\])*")\s*;', src.src[lo + ms.end():])
+                if not lit:
+                    raise ExtractError('constfn: %s is not a string literal' % name)
+                text = ''
+                if kv.get('impl'):
+                    text += 'impl %s {\n' % kv['impl']
+                text += "pub fn %s() -> (r: &'static str)\n    ensures r@ == %s@\n{ %s }\n" % (name, lit.group(1), lit.group(1))
+                if kv.get('impl'):
+                    text += '}\n'
+                asm.add(text.rstrip('\n'))
+                asm.types.append('%s const %s (as fn returning its literal)' % (file, name))
+                asm.constfns = getattr(asm, 'constfns', []) + [name]
+                i += 1
+                continue
             m = re.search(r'(?<![A-Za-z0-9_])const\s+' + re.escape(name) + r'\s*:[^=]*=\s*&\s*\[', src.masked[lo:hi])
             if not m:
                 raise ExtractError('constfn: const %s not found' % name)
             ob = lo + m.end() - 1
             cb = rsx.match_close(src.masked, ob)
             elems = rsx.split_args(rsx.strip_comments(src.src[ob + 1:cb]))
-            if elems and all(re.match(r'^\(\s*"[^"]*"\s*,\s*&\s*\[.*\]\s*\)$', e, re.S) for e in elems):
+            if elems and all(re.match(r'^\(\s*"[^"]*"\s*,\s*&\s*\[.*\]\s*,?\s*\)$', e, re.S) for e in elems):
                 # table of (code, &[codes]) pairs: emitted as Vec<(&str, Vec<&str>)>; the EXPECTED content comes from the
                 # unit (oracle lines `expect "X": "A", "B"` following the directive), the actual content from the code
                 pairs = []
                 for e in elems:
-                    mm = re.match(r'^\(\s*("[^"]*")\s*,\s*&\s*\[(.*)\]\s*\)$', e, re.S)
+                    mm = re.match(r'^\(\s*("[^"]*")\s*,\s*&\s*\[(.*)\]\s*,?\s*\)$', e, re.S)
                     pairs.append((mm.group(1), rsx.split_args(mm.group(2))))
                 exp = []
                 j = i + 1
